@@ -201,6 +201,10 @@ OuterLoop:
 					return "", errors.New("invalid format string")
 				}
 			}
+			if i >= len(format) {
+				// The format string ends before the conversion character
+				return "", fmt.Errorf("invalid conversion '%s' to 'format'", format[start-1:])
+			}
 			args[j] = arg
 			j++
 		}
